@@ -203,6 +203,10 @@ func thorough(prop *Property, p *Prog, rep *Report, repo string) {
 			Prop       string   `json:"breaks_property"`
 			Also       []string `json:"also_checked_under"`
 			Undetected bool     `json:"expected_undetected"`
+			// UndetectedUnder lists the properties whose check is known not to
+			// reach this change (it breaks only a clause they do not decide);
+			// under the other owners it must be reported
+			UndetectedUnder []string `json:"expected_undetected_under"`
 		}
 		if json.Unmarshal(mb, &meta) != nil {
 			continue
@@ -226,6 +230,11 @@ func thorough(prop *Property, p *Prog, rep *Report, repo string) {
 			skipped++
 			results = append(results, result{"seeded/" + filepath.Base(d), "skipped", "patch does not apply to the current tree: " + err.Error()})
 			continue
+		}
+		for _, u := range meta.UndetectedUnder {
+			if u == prop.ID {
+				meta.Undetected = true
+			}
 		}
 		if meta.Undetected {
 			// a confirmed breaking change that only touches a clause listed as not decided:
